@@ -20,6 +20,7 @@ import (
 	naslogger "free5gclib/nas/logger"
 	"github.com/sirupsen/logrus"
 
+	"free5gclib/aper"
 	"free5gclib/nas"
 	"free5gclib/nas/nasMessage"
 	"free5gclib/nas/nasTestpacket"
@@ -56,7 +57,7 @@ type c20Case struct {
 	Scripts [][]c20Op `json:"scripts"`
 }
 
-var c20Kinds = []string{"ngap-enc", "ngap-dec", "nas-plain", "protect", "unprotect", "encrypt", "mac", "derive", "ngap-enc-big", "ngap-dec-big"}
+var c20Kinds = []string{"ngap-enc", "ngap-dec", "nas-plain", "protect", "unprotect", "encrypt", "mac", "derive", "ngap-enc-big", "ngap-dec-big", "alg-direct", "ngap-dec-lists"}
 
 func genC20(t *rapid.T) c20Case {
 	g := rapid.SampledFrom([]int{2, 2, 4, 8, 8, 16, 64}).Draw(t, "goroutines")
@@ -70,8 +71,16 @@ func genC20(t *rapid.T) c20Case {
 		longBias = 8
 		maxOps = maxOps / 2
 	}
+	storm := ""
+	if rapid.IntRange(0, 5).Draw(t, "storm") == 0 {
+		// every goroutine does the same kind of work for the whole case (64 decoders of list-heavy messages at once,
+		// 64 direct cipher calls at once, ...): load that adds up across goroutines
+		storm = rapid.SampledFrom([]string{"ngap-dec-lists", "ngap-dec-lists", "alg-direct", "ngap-dec", "ngap-enc"}).Draw(t, "storm_kind")
+		g = 64
+		maxOps = 6
+	}
 	for i := 0; i < g; i++ {
-		n := rapid.IntRange(8, maxOps).Draw(t, fmt.Sprintf("n%d", i))
+		n := rapid.IntRange(min(8, maxOps-2), maxOps).Draw(t, fmt.Sprintf("n%d", i))
 		var s []c20Op
 		// a goroutine tends to stay with a few kinds (like a UE that is registering), which
 		// makes simultaneous use of the same primitive by two goroutines likely
@@ -80,6 +89,9 @@ func genC20(t *rapid.T) c20Case {
 			kind := fav
 			if rapid.IntRange(0, 2).Draw(t, "other") == 0 {
 				kind = rapid.SampledFrom(c20Kinds).Draw(t, "kind")
+			}
+			if storm != "" {
+				kind = storm
 			}
 			// message sizes: mostly signalling-sized; in "long" cases mostly kilobytes (payload containers, NAS-PDUs of
 			// 2..20 KB), so that two goroutines are inside a long operation at the same time
@@ -310,6 +322,126 @@ func runOp(u *ueState, op c20Op) (res string) {
 		}
 		if !bytes.Equal(mac, want[:]) {
 			return fmt.Sprintf("WRONG-MAC alg=%d %x", alg, mac)
+		}
+		return "ok"
+	case "alg-direct":
+		// the exported algorithm functions themselves (not through NASEncrypt / NASMacCalculate)
+		var k [16]byte
+		copy(k[:], r.bytes(16))
+		cnt, br, dir := uint32(r.next()), uint8(r.next()%32), uint8(r.next()%2)
+		msg := r.bytes(op.Len)
+		switch op.Alg + int(op.Seed%2)*3 {
+		case 0, 3:
+			out, err := security.NEA1(k, cnt, uint32(br), uint32(dir), append([]byte{}, msg...), uint32(8*len(msg)))
+			if err != nil || !bytes.Equal(out, refcrypto.EEA1(k, cnt, uint32(br), uint32(dir), msg, 8*len(msg))) {
+				return fmt.Sprintf("WRONG NEA1 (direct call) err=%v", err)
+			}
+		case 1:
+			out, err := security.NEA2(k, cnt, br, dir, append([]byte{}, msg...))
+			if err != nil || !bytes.Equal(out, refcrypto.EEA2(k, cnt, uint32(br), uint32(dir), msg)) {
+				return fmt.Sprintf("WRONG NEA2 (direct call) err=%v", err)
+			}
+		case 2, 5:
+			mac, err := security.NIA1(k, cnt, br, uint32(dir), msg, uint64(8*len(msg)))
+			want := refcrypto.EIA1(k, cnt, uint32(br), uint32(dir), msg, 8*len(msg))
+			if err != nil || !bytes.Equal(mac, want[:]) {
+				return fmt.Sprintf("WRONG NIA1 (direct call) err=%v", err)
+			}
+		default:
+			mac, err := security.NIA2(k, cnt, br, dir, msg)
+			want := refcrypto.EIA2(k, cnt, uint32(br), uint32(dir), msg)
+			if err != nil || !bytes.Equal(mac, want[:]) {
+				return fmt.Sprintf("WRONG NIA2 (direct call) err=%v", err)
+			}
+		}
+		return "ok"
+	case "ngap-dec-lists":
+		// a list-heavy message (deep nesting over many elements), decoded. The canonical bytes are prepared once per
+		// seed (during the sequential phase), so that in the concurrent phase this operation is decoding only.
+		var rb []byte
+		if v, ok := pduCache.Load(op.Seed); ok {
+			rb = v.([]byte)
+		} else {
+			// NG SETUP REQUEST with a Supported TA List of nTA tracking areas x nPLMN broadcast PLMNs x nSlice slices:
+			// lists nested four deep under the IE container, a few hundred leaf items
+			x := &sm{x: op.Seed}
+			nTA, nPLMN, nSlice := 2+int(x.next()%3), 2+int(x.next()%5), 4+int(x.next()%5)
+			var pdu ngapType.NGAPPDU
+			pdu.Present = ngapType.NGAPPDUPresentInitiatingMessage
+			pdu.InitiatingMessage = new(ngapType.InitiatingMessage)
+			im := pdu.InitiatingMessage
+			im.ProcedureCode.Value = ngapType.ProcedureCodeNGSetup
+			im.Criticality.Value = ngapType.CriticalityPresentReject
+			im.Value.Present = ngapType.InitiatingMessagePresentNGSetupRequest
+			im.Value.NGSetupRequest = new(ngapType.NGSetupRequest)
+			{
+				ie := ngapType.NGSetupRequestIEs{}
+				ie.Id.Value = ngapType.ProtocolIEIDGlobalRANNodeID
+				ie.Criticality.Value = ngapType.CriticalityPresentReject
+				ie.Value.Present = ngapType.NGSetupRequestIEsPresentGlobalRANNodeID
+				ie.Value.GlobalRANNodeID = new(ngapType.GlobalRANNodeID)
+				ie.Value.GlobalRANNodeID.Present = ngapType.GlobalRANNodeIDPresentGlobalGNBID
+				ie.Value.GlobalRANNodeID.GlobalGNBID = new(ngapType.GlobalGNBID)
+				ie.Value.GlobalRANNodeID.GlobalGNBID.PLMNIdentity.Value = x.bytes(3)
+				ie.Value.GlobalRANNodeID.GlobalGNBID.GNBID.Present = ngapType.GNBIDPresentGNBID
+				ie.Value.GlobalRANNodeID.GlobalGNBID.GNBID.GNBID = &aper.BitString{Bytes: x.bytes(3), BitLength: 24}
+				im.Value.NGSetupRequest.ProtocolIEs.List = append(im.Value.NGSetupRequest.ProtocolIEs.List, ie)
+			}
+			{
+				ie := ngapType.NGSetupRequestIEs{}
+				ie.Id.Value = ngapType.ProtocolIEIDSupportedTAList
+				ie.Criticality.Value = ngapType.CriticalityPresentReject
+				ie.Value.Present = ngapType.NGSetupRequestIEsPresentSupportedTAList
+				ie.Value.SupportedTAList = new(ngapType.SupportedTAList)
+				for a := 0; a < nTA; a++ {
+					ta := ngapType.SupportedTAItem{}
+					ta.TAC.Value = x.bytes(3)
+					for b := 0; b < nPLMN; b++ {
+						bp := ngapType.BroadcastPLMNItem{}
+						bp.PLMNIdentity.Value = x.bytes(3)
+						for c := 0; c < nSlice; c++ {
+							sl := ngapType.SliceSupportItem{}
+							sl.SNSSAI.SST.Value = x.bytes(1)
+							sl.SNSSAI.SD = &ngapType.SD{Value: x.bytes(3)}
+							bp.TAISliceSupportList.List = append(bp.TAISliceSupportList.List, sl)
+						}
+						ta.BroadcastPLMNList.List = append(ta.BroadcastPLMNList.List, bp)
+					}
+					ie.Value.SupportedTAList.List = append(ie.Value.SupportedTAList.List, ta)
+				}
+				im.Value.NGSetupRequest.ProtocolIEs.List = append(im.Value.NGSetupRequest.ProtocolIEs.List, ie)
+			}
+			{
+				ie := ngapType.NGSetupRequestIEs{}
+				ie.Id.Value = ngapType.ProtocolIEIDDefaultPagingDRX
+				ie.Criticality.Value = ngapType.CriticalityPresentIgnore
+				ie.Value.Present = ngapType.NGSetupRequestIEsPresentDefaultPagingDRX
+				ie.Value.DefaultPagingDRX = &ngapType.PagingDRX{Value: ngapType.PagingDRXPresentV128}
+				im.Value.NGSetupRequest.ProtocolIEs.List = append(im.Value.NGSetupRequest.ProtocolIEs.List, ie)
+			}
+			b, _, err := refper.Encode(pdu, gen.PDUTag)
+			if err != nil || len(b) >= 16384 {
+				b = nil
+			}
+			pduCache.Store(op.Seed, b)
+			rb = b
+		}
+		if rb == nil {
+			return "skip"
+		}
+		// decoded several times in a row: most of this operation's time is spent inside the decoder, so that with 64
+		// goroutines dozens of decodes are in progress at any moment
+		for rep := 0; rep < 3; rep++ {
+			d, derr := ngap.Decoder(append([]byte{}, rb...))
+			if derr != nil {
+				return "decerr:" + derr.Error()
+			}
+			if rep == 0 {
+				b2, _, e2 := refper.Encode(*d, gen.PDUTag)
+				if e2 != nil || !bytes.Equal(b2, rb) {
+					return "decoded-value-differs"
+				}
+			}
 		}
 		return "ok"
 	case "derive":
